@@ -212,7 +212,7 @@ class C09(Lab):
         "NaN, NUL characters and lone surrogates are not generated; writes always have the topic's type",
         "struct payloads read back through the generic subscriber are decoded by hand (Rotation2d = one little-endian double)",
     )
-    budgets = {"quick": 3000, "thorough": 200000}
+    budgets = {"quick": 5000, "thorough": 200000}
     time_budget = {"quick": 80, "thorough": 1500}
 
     def setup(self):
